@@ -186,7 +186,10 @@ class C39(Check):
             diff = next((i for i, (a, b) in enumerate(zip(out, refbytes)) if a != b), min(len(out), len(refbytes)))
             raise Violation("bytes-differ-from-single-thread", f"output differs from the --threads=1 link at offset {diff:#x} "
                             f"(sizes {len(out)} vs {len(refbytes)}); the kept set or its layout depends on the schedule")
-        events = slotmodel.all_events(f"{d}/events.txt")
+        try:
+            events = slotmodel.all_events(f"{d}/events.txt")
+        except slotmodel.TraceError as e:
+            raise Inconclusive(f"event log unreadable: {e}")
         if not any(e[1] == "activate-start" for e in events):
             raise Inconclusive("no layout-traversal events in the event log")
         try:
